@@ -2,8 +2,10 @@
 C09 — macro expansion follows C11 6.10.3 and terminates.
 
 Property theorems only; helper lemmas live in Lemmas/PPArgs.lean, Lemmas/PPLemmas.lean, Lemmas/PPTerm.lean,
-Lemmas/PPSubst.lean, and (termination for every table) Lemmas/C09Measure.lean, Lemmas/C09Subst.lean, Lemmas/C09Fuel.lean.  The model is Model/PP.lean (preprocess.c as it is now), the specification Spec/PPSpec.lean
-(C11 6.10.3.1–6.10.3.3 in the standard's phases, with placemarkers).  `#`: Lemmas/C09Stringize.lean.
+Lemmas/PPSubst.lean (with Lemmas/C09Skip.lean: the placemarker loop of `subst`), and (termination for every table)
+Lemmas/C09Measure.lean, Lemmas/C09Subst.lean, Lemmas/C09Fuel.lean.  The model is Model/PP.lean (preprocess.c as it is now),
+the specification Spec/PPSpec.lean (C11 6.10.3.1–6.10.3.3 in the standard's phases, with placemarkers).
+`#`: Lemmas/C09Stringize.lean.  The `subst` before `fix:` 5a15c0f: Lemmas/C09Placemarker.lean (witnesses in Findings/C09.lean).
 -/
 import ChibiVerif.Model.PP
 import ChibiVerif.Spec.PPSpec
